@@ -482,6 +482,21 @@ mod exec {
             }
         }
 
+        // A program can be named like a word that the shell reserves in
+        // command position ("if", "done", "time", ...).  Unquoted, such a
+        // name is taken for the keyword; quoted, it is an ordinary command.
+        fn display_escape_command(s: &str) -> Cow<'_, str> {
+            const RESERVED: &[&str] = &[
+                "case", "coproc", "do", "done", "elif", "else", "esac", "fi", "for", "function",
+                "if", "in", "select", "then", "time", "until", "while",
+            ];
+            if RESERVED.contains(&s) {
+                Cow::Owned(format!("'{}'", s))
+            } else {
+                Exec::display_escape(s)
+            }
+        }
+
         /// Show Exec as command-line string quoted in the Unix style.
         pub fn to_cmdline_lossy(&self) -> String {
             let mut out = String::new();
@@ -506,7 +521,7 @@ mod exec {
                     }
                 }
             }
-            out.push_str(&Exec::display_escape(&self.command.to_string_lossy()));
+            out.push_str(&Exec::display_escape_command(&self.command.to_string_lossy()));
             for arg in &self.args {
                 out.push(' ');
                 out.push_str(&Exec::display_escape(&arg.to_string_lossy()));
